@@ -310,9 +310,9 @@ impl Parser {
 
         let maybe_class = input.user_data().get_type_of_executing_class();
 
-        if !value_ty.eq_complex(
-            expected_ty,
-            &TypecheckFlags::use_class(maybe_class.as_ref().map(Ref::clone)).lhs_unwrap(true),
+        if !expected_ty.eq_complex(
+            &value_ty,
+            &TypecheckFlags::use_class(maybe_class.as_ref().map(Ref::clone)).lhs_unwrap(false),
         ) {
             let hint = expected_ty
                 .get_error_hint_between_types(&value_ty, maybe_class)
